@@ -305,7 +305,7 @@ def run_lines(exe, lines, timeout=600, args=(), env=None):
     return p.returncode, out, p.stderr.decode("latin-1", "replace")
 
 
-def run_lines_sharded(exe, lines, shards=None, timeout=900, args=()):
+def run_lines_sharded(exe, lines, shards=None, timeout=600, args=()):
     """Same, splitting the case list across processes (order preserved)."""
     shards = shards or NCPU
     if len(lines) < 2000 or shards <= 1:
@@ -319,8 +319,14 @@ def run_lines_sharded(exe, lines, shards=None, timeout=900, args=()):
     import threading
     results = [None] * len(procs)
     def work(i, p, part):
-        o, e = p.communicate(("\n".join(part) + "\n").encode(), timeout=timeout)
-        results[i] = (p.returncode, o, e)
+        try:
+            o, e = p.communicate(("\n".join(part) + "\n").encode(), timeout=timeout)
+            results[i] = (p.returncode, o, e)
+        except subprocess.TimeoutExpired:
+            p.kill()          # never leave a runaway child behind
+            try: o, e = p.communicate(timeout=10)
+            except Exception: o, e = b"", b""
+            results[i] = (-9, o, e + b"\n[killed after %d s]" % timeout)
     ths = [threading.Thread(target=work, args=(i, p, part)) for i, (p, part) in enumerate(procs)]
     for t in ths: t.start()
     for t in ths: t.join()
